@@ -181,6 +181,10 @@ def r3_nondeterminism(ctx):
                 src = _is_nd(n)
                 if not src:
                     continue
+                if src == 'hash' and fn.name == '__hash__':
+                    # a class defining its hash from its text (x.__repr__().__hash__() spelled hash(repr)): the value keys
+                    # dictionaries of this process and is never output
+                    continue
                 found += 1
                 ok = (m.name, q) in ALLOWED_ND
                 yield Ob(km('%s:%s uses %s' % (m.name, q, src)), ok, ctx.loc(m, n),
@@ -335,6 +339,59 @@ def r5_fresh_objects(ctx):
     yield Ob('error_handler:err_handler.__init__ starts with an empty tree', ok, ctx.floc(fn), '' if ok else 'changed')
 
 
+def r8_per_document_streams(ctx):
+    """where one process validates several documents (the loops of the command-line scripts), every output stream handed
+    to x12n_document is an object of this iteration: each definition of the variable that reaches the call lies inside
+    the loop body (or is the constant None).  A scratch file created once before the loop and rewound carries the tail of
+    an earlier acknowledgement into a later, shorter one.  Reaching definitions on the script's CFG."""
+    from ..cfg import reaching_defs
+    n = 0
+    for mod in ('scripts.x12valid', 'scripts.x12html', 'scripts.x12xml'):
+        m = ctx.mod(mod)
+        for fn in [x for x in ast.walk(m.tree) if isinstance(x, ast.FunctionDef)]:
+            calls = [c for c in A.calls_in(fn) if A.call_target(c)[1] == 'x12n_document']
+            if not calls:
+                continue
+            fn._mod = m
+            g = ctx.cfg(fn)
+            rd, _defs = reaching_defs(g)
+            for c in calls:
+                loop = A.enclosing(c, (ast.For, ast.While))
+                args = {}
+                for i, a_ in enumerate(c.args):
+                    if i in (2, 3, 4):
+                        args[('fd_997', 'fd_html', 'fd_xmldoc')[i - 2]] = a_
+                for kw in c.keywords:
+                    if kw.arg in ('fd_997', 'fd_html', 'fd_xmldoc'):
+                        args[kw.arg] = kw.value
+                from ..cfg import node_of
+                nd = [node_of(g, c)] if node_of(g, c) is not None else []
+                if not nd:
+                    raise AnalysisError('%s: the call of x12n_document was not found in the CFG' % mod)
+                inside = set()
+                if loop is not None:
+                    inside = {id(x) for b_ in loop.body for x in ast.walk(b_)}
+                for pname, a_ in sorted(args.items()):
+                    n += 1
+                    bad = None
+                    if isinstance(a_, ast.Name) and loop is not None:
+                        for did in sorted((rd.get(nd[0].id) or {}).get(a_.id, ())):
+                            if did == -1:
+                                bad = 'it is a parameter of %s' % fn.name
+                                continue
+                            dn = g.nodes[did]
+                            st = dn.stmt if dn.stmt is not None else dn.ast
+                            is_none = isinstance(st, ast.Assign) and isinstance(st.value, ast.Constant) and st.value.value is None
+                            if id(st) not in inside and id(dn.ast) not in inside and not is_none:
+                                bad = 'the definition `%s` (line %s) outside the loop reaches the call' % (norm(st, 70), getattr(st, 'lineno', '?'))
+                    elif not isinstance(a_, (ast.Name, ast.Constant)) and loop is not None and not isinstance(a_, ast.Call):
+                        bad = 'it is the expression %s' % norm(a_, 60)
+                    yield Ob('%s:%s %s handed to x12n_document is an object of the current document' % (mod, fn.name, pname), bad is None, ctx.floc(fn, c),
+                             '' if bad is None else '%s: %s - the stream is shared by the documents of one run' % (pname, bad))
+    if n < 5:
+        raise AnalysisError('only %d output-stream arguments of x12n_document calls found in the scripts' % n)
+
+
 def r6_map_nodes_read_only(ctx):
     from . import c16
     for o in c16.r9_nodes_immutable(ctx):
@@ -408,5 +465,6 @@ RULES = [
     Rule('C18.R4', 'set values are sorted before any order-sensitive use', r4_set_order, floor=4),
     Rule('C18.R5', 'fresh reader/walker/error handler/index/maps per call', r5_fresh_objects, floor=9),
     Rule('C18.R7', 'no object/class/module state is a one-shot iterator (map/filter/zip/generator)', r7_no_one_shot_state, floor=1),
+    Rule('C18.R8', 'scripts: every output stream passed to x12n_document inside a loop over input files is defined in that iteration (reaching definitions)', r8_per_document_streams, floor=5),
     Rule('C18.R6', 'loaded map nodes keep no per-call state (shared with C16.R9)', r6_map_nodes_read_only, floor=2),
 ]
